@@ -1,12 +1,12 @@
 CONSTANTS
-Rpcs = {"a", "b"}
-FailFast = {"a"}
-Cancellable = {"b"}
+Rpcs = {"a"}
+FailFast = {}
+Cancellable = {}
 MaxGen = 2
-Kinds = {"ok", "notready", "nosc", "status", "err"}
+Kinds = {"nosc", "ok"}
 MaxFlips = 0
 Reswap = TRUE
-Mutant = 0
+Mutant = 5
 INIT Init
 NEXT Next
 INVARIANT I_Fresh
